@@ -299,7 +299,7 @@ PROPS["C20"] = {
                                                   "http.ResponseEncoder/ResponseDecoder", "mounted muxer: ServeHTTP/Vars/ResolvePattern from handlers and from a mux.Use middleware (before routing)", "pkg validation error constructors on one field name (sync.Map modelled)", "middleware samplers (fixed, adaptive with 1-3 window sizes and 0-2 earlier requests)", "http text decoder into []byte (pooled buffers)", "ResponseEncoder Accept negotiation under schedules with one preemption of the first request (after an earlier request)", "generated handler NewIntsHandler of design v1 (valid, invalid and failing requests mixed)"]},
     "assumptions": ["sync.Mutex/RWMutex/atomic follow the Go memory model; two accesses are ordered iff they hold a common mutex, at least one in write mode, or both are atomic",
                     "the two invocations are executed one after the other by the executor; conflicts are computed on the recorded accesses (loads, stores, map reads/writes of cells that existed before the invocations)"],
-    "outside": ["schedules with more than one preemption or more than two requests, 3-64 goroutines", "chi internals beyond the accesses the two invocations perform, net/http itself", "StreamCanceler, SkipResponseWriter, websocket (goroutines, channels: unsupported by the executor)",
+    "outside": ["the body of goa.NewErrorID (replaced by a fresh-id intrinsic; seed C20-r5m1, a shared scratch buffer there, is therefore missed)", "schedules with more than one preemption or more than two requests, 3-64 goroutines", "chi internals beyond the accesses the two invocations perform, net/http itself", "StreamCanceler, SkipResponseWriter, websocket (goroutines, channels: unsupported by the executor)",
                 "designs other than v1 for the generated-handler entry"],
     "explanation": "Mostly not a schedule exploration (one harness explores schedules with a single preemption of the first invocation at its synchronisation operations): for each per-request entry point the executor runs two invocations with independent symbolic inputs from one constructed state, records every access to pre-existing memory with the locks held, and the check asserts (a) no pair of accesses of the two invocations conflicts without a common ordering mutex (a conflict is replayed natively with two goroutines under go test -race), and (b) each invocation's observable result is a function of its own inputs only (decided by the SMT solver for all input values).",
     "manifest": {
